@@ -16,7 +16,7 @@ def held (H : Handle) : Option Nat :=
 
 /-- Per-handle invariant relative to the shared cells. -/
 structure InvH (A : Arch) (cells : List UInt64) (H : Handle) : Prop where
-  storing : ∀ i raw v, H.pc = .storing i raw v → A.f i = some v
+  storing : ∀ i md v, H.pc = .storing i md v → A.f i = some v
   held : ∀ i, held H = some i → ∃ v, A.f i = some v ∧ cells[i]? = some v
 
 /-- Invariant of the shared cells: one per entry, each still 0 or already the entry's `f i`. -/
@@ -40,36 +40,38 @@ theorem cellsInv_init (A : Arch) : CellsInv A (initCells A) := by
 
 theorem invH_init (A : Arch) (cells : List UInt64) (s : List Op) : InvH A cells (Handle.init s) := by
   refine ⟨?_, ?_⟩
-  · intro i raw v h; cases h
+  · intro i md v h; cases h
   · intro i h; cases h
 
 /-! ### `beginOpen` -/
 
-theorem beginOpen_cases (A : Arch) (h : Handle) (i : Nat) (raw : Bool) (hpc : h.pc = .idle) :
-    ((beginOpen A h i raw).pc = .idle ∧ (beginOpen A h i raw).file = none) ∨
-    (∃ v, A.f i = some v ∧ (beginOpen A h i raw).pc = .storing i raw v ∧
-      (beginOpen A h i raw).file = none) := by
+theorem beginOpen_cases (A : Arch) (h : Handle) (i : Nat) (md : Mode) (hpc : h.pc = .idle) :
+    ((beginOpen A h i md).pc = .idle ∧ (beginOpen A h i md).file = none) ∨
+    (∃ v, A.f i = some v ∧ (beginOpen A h i md).pc = .storing i md v ∧
+      (beginOpen A h i md).file = none) := by
   unfold beginOpen Arch.f
   cases he : A.entries[i]? with
   | none => left; simp [Handle.emit, hpc]
   | some e =>
-    cases hf : findContent A.bytes e.headerStart with
-    | ok v => right; exact ⟨v, by simp [hf], by simp [hf], by simp [hf]⟩
-    | err er => left; simp [Handle.emit, hpc, hf]
-    | panic => left; simp [Handle.emit, hpc, hf]
+    by_cases hpr : needsPw md e = true
+    · left; simp [Handle.emit, hpc, hpr]
+    · cases hf : findContent A.bytes e.headerStart with
+      | ok v => right; exact ⟨v, by simp [hf], by simp [hf, hpr], by simp [hf, hpr]⟩
+      | err er => left; simp [Handle.emit, hpc, hf, hpr]
+      | panic => left; simp [Handle.emit, hpc, hf, hpr]
 
 theorem invH_of_idle_nofile {A : Arch} {cells : List UInt64} {H : Handle}
     (hpc : H.pc = .idle) (hf : H.file = none) : InvH A cells H := by
   refine ⟨?_, ?_⟩
-  · intro i raw v h; rw [hpc] at h; cases h
+  · intro i md v h; rw [hpc] at h; cases h
   · intro i h; simp [held, hpc, hf] at h
 
-theorem invH_beginOpen (A : Arch) (cells : List UInt64) (h : Handle) (i : Nat) (raw : Bool)
-    (hpc : h.pc = .idle) : InvH A cells (beginOpen A h i raw) := by
-  rcases beginOpen_cases A h i raw hpc with ⟨h1, h2⟩ | ⟨v, hv, h1, h2⟩
+theorem invH_beginOpen (A : Arch) (cells : List UInt64) (h : Handle) (i : Nat) (md : Mode)
+    (hpc : h.pc = .idle) : InvH A cells (beginOpen A h i md) := by
+  rcases beginOpen_cases A h i md hpc with ⟨h1, h2⟩ | ⟨v, hv, h1, h2⟩
   · exact invH_of_idle_nofile h1 h2
   · refine ⟨?_, ?_⟩
-    · intro j raw' v' hj
+    · intro j md' v' hj
       rw [h1] at hj
       cases hj
       exact hv
@@ -112,11 +114,11 @@ theorem cellsInv_set {A : Arch} {cells : List UInt64} {i : Nat} {v : UInt64}
 /-- A step changes the cells only by the store of a handle in state `storing`. -/
 theorem stepH_cells (A : Arch) (cells : List UInt64) (H : Handle) :
     (stepH A cells H).1 = cells ∨
-    ∃ i raw v, H.pc = .storing i raw v ∧ (stepH A cells H).1 = cells.set i v := by
+    ∃ i md v, H.pc = .storing i md v ∧ (stepH A cells H).1 = cells.set i v := by
   unfold stepH
   split
-  · rename_i i raw v hpc
-    right; exact ⟨i, raw, v, hpc, rfl⟩
+  · rename_i i md v hpc
+    right; exact ⟨i, md, v, hpc, rfl⟩
   · left; rfl
   · left
     split <;> rfl
@@ -128,15 +130,13 @@ theorem invH_emit {A : Arch} {cells : List UInt64} {H : Handle} (o : Obs) (h : I
 
 theorem invH_congr {A : Arch} {cells : List UInt64} {H H' : Handle}
     (hpc : H'.pc = H.pc) (hheld : held H' = held H) (h : InvH A cells H) : InvH A cells H' :=
-  ⟨fun i raw v e => h.storing i raw v (hpc ▸ e), fun i e => h.held i (hheld ▸ e)⟩
+  ⟨fun i md v e => h.storing i md v (hpc ▸ e), fun i e => h.held i (hheld ▸ e)⟩
 
 theorem doRead_pc (A : Arch) (h : Handle) (n : Nat) : (doRead A h n).pc = h.pc := by
   unfold doRead
   split
   · rfl
-  · split
-    · rfl
-    · split <;> rfl
+  · split <;> rfl
 
 theorem doRead_file_idx (A : Arch) (h : Handle) (n : Nat) :
     (doRead A h n).file.map (·.idx) = h.file.map (·.idx) := by
@@ -144,9 +144,7 @@ theorem doRead_file_idx (A : Arch) (h : Handle) (n : Nat) :
   split
   · rfl
   · rename_i fl hfl
-    split
-    · simp [Handle.emit, hfl]
-    · split <;> simp [Handle.emit, hfl]
+    split <;> simp [Handle.emit, hfl]
 
 theorem held_idle {H : Handle} (hpc : H.pc = .idle) : held H = H.file.map (·.idx) := by
   simp [held, hpc]
@@ -154,8 +152,11 @@ theorem held_idle {H : Handle} (hpc : H.pc = .idle) : held H = H.file.map (·.id
 theorem invH_doOp {A : Arch} {cells : List UInt64} {h : Handle} (op : Op)
     (hpc : h.pc = .idle) (hh : InvH A cells h) : InvH A cells (doOp A cells h op) := by
   cases op with
-  | openIdx i => exact invH_beginOpen A cells h i false hpc
-  | openRaw i => exact invH_beginOpen A cells h i true hpc
+  | openIdx i => exact invH_beginOpen A cells h i .noPw hpc
+  | openRaw i => exact invH_beginOpen A cells h i .raw hpc
+  | openDec i p => exact invH_beginOpen A cells h i (.pw p) hpc
+  | openName nm => exact invH_beginOpen A cells h (A.nameIndex nm) .noPw hpc
+  | openNameDec nm p => exact invH_beginOpen A cells h (A.nameIndex nm) (.pw p) hpc
   | read n =>
     show InvH A cells (doRead A h n)
     refine invH_congr (doRead_pc A h n) ?_ hh
@@ -187,8 +188,8 @@ theorem stepH_invH {A : Arch} {cells : List UInt64} {H : Handle}
   unfold stepH
   split
   · -- storing: the store
-    rename_i i raw v hpc
-    have hv := hH.storing i raw v hpc
+    rename_i i md v hpc
+    have hv := hH.storing i md v hpc
     have hlt : i < cells.length := by rw [hc.len]; exact f_lt hv
     refine ⟨?_, ?_⟩
     · intro j r w hj; cases hj
@@ -197,20 +198,35 @@ theorem stepH_invH {A : Arch} {cells : List UInt64} {H : Handle}
       cases hj
       exact ⟨v, hv, by simp [hlt]⟩
   · -- seeking: finish the open
-    rename_i i raw v hpc
+    rename_i i md v hpc
     obtain ⟨w, hw, hcw⟩ := hH.held i (by simp [held, hpc])
-    show InvH A cells (finishOpen A H i raw v)
+    show InvH A cells (finishOpen A H i md v)
+    have hopen : ∀ (G : Handle) (fl : OpenFile), G.pc = .idle → G.file = some fl → fl.idx = i →
+        InvH A cells G := by
+      intro G fl g1 g2 g3
+      refine ⟨?_, ?_⟩
+      · intro j r w hj; rw [g1] at hj; cases hj
+      · intro j hj
+        simp only [held, g1, g2, Option.map_some, Option.some.injEq] at hj
+        subst hj
+        rw [g3]
+        exact ⟨w, hw, hcw⟩
     unfold finishOpen
     split
     · exact invH_emit _ (invH_of_idle_nofile rfl rfl)
     · split
-      · refine invH_emit _ ⟨?_, ?_⟩
-        · intro j r w hj; cases hj
-        · intro j hj
-          simp only [held, Option.map_some, Option.some.injEq] at hj
-          subst hj
-          exact ⟨w, hw, hcw⟩
-      · exact invH_emit _ (invH_of_idle_nofile rfl rfl)
+      · exact invH_emit _ (hopen _ _ rfl rfl rfl)
+      · split
+        · exact invH_emit _ (hopen _ _ rfl rfl rfl)
+        · exact invH_emit _ (invH_of_idle_nofile rfl rfl)
+      · split
+        · exact invH_emit _ (invH_of_idle_nofile rfl rfl)
+        · split
+          · exact invH_emit _ (hopen _ _ rfl rfl rfl)
+          · split
+            · exact invH_emit _ (invH_of_idle_nofile rfl rfl)
+            · exact invH_emit _ (invH_of_idle_nofile rfl rfl)
+            · exact invH_emit _ (hopen _ _ rfl rfl rfl)
   · rename_i hpc
     split
     · exact hH
@@ -264,14 +280,14 @@ theorem good_step {A : Arch} {s : Sys} (hs : Good A s) (h : Nat) : Good A (Sys.s
     have hmem : H ∈ s.hs := List.mem_of_getElem? hH
     have hinv := hs.handles H hmem
     have hact := stepH_invH hs.cells hinv
-    rcases stepH_cells A s.cells H with hc | ⟨i, raw, v, hpc, hc⟩
+    rcases stepH_cells A s.cells H with hc | ⟨i, md, v, hpc, hc⟩
     · refine ⟨by simp only [hc]; exact hs.cells, ?_⟩
       intro G hG
       simp only at hG ⊢
       rcases List.mem_or_eq_of_mem_set hG with hG | rfl
       · rw [hc]; exact hs.handles G hG
       · exact hact
-    · have hv := hinv.storing i raw v hpc
+    · have hv := hinv.storing i md v hpc
       refine ⟨by simp only [hc]; exact cellsInv_set hs.cells hv, ?_⟩
       intro G hG
       simp only at hG ⊢
@@ -317,9 +333,9 @@ theorem solo_inv (A : Arch) (script : List Op) (n : Nat) :
     refine ⟨?_, stepH_invH hc hh⟩
     show CellsInv A (stepH A _ _).1
     rcases stepH_cells A (soloRun A (initCells A) (Handle.init script) n).1
-        (soloRun A (initCells A) (Handle.init script) n).2 with e | ⟨i, raw, v, hpc, e⟩
+        (soloRun A (initCells A) (Handle.init script) n).2 with e | ⟨i, md, v, hpc, e⟩
     · rw [e]; exact hc
-    · rw [e]; exact cellsInv_set hc (hh.storing i raw v hpc)
+    · rw [e]; exact cellsInv_set hc (hh.storing i md v hpc)
 
 /-- **Simulation.** After any schedule, the complete local state of handle `h` (position, open file,
 remaining script, observations) is the state it reaches alone after as many atomic steps as the
@@ -367,53 +383,89 @@ theorem soloRun_add (A : Arch) (c : List UInt64) (H : Handle) (n m : Nat) :
     rw [ih]
     rfl
 
-theorem beginOpen_some {A : Arch} {i : Nat} {v : UInt64} (h : Handle) (raw : Bool)
-    (hv : A.f i = some v) :
-    (beginOpen A h i raw).pc = .storing i raw v ∧ (beginOpen A h i raw).script = h.script ∧
-      (beginOpen A h i raw).obs = h.obs := by
-  unfold Arch.f at hv
+theorem g_some_f {A : Arch} {i : Nat} {md : Mode} {v : UInt64} (h : A.g i md = some v) :
+    A.f i = some v := by
+  unfold Arch.g at h
+  cases he : A.entries[i]? with
+  | none => rw [he] at h; cases h
+  | some e =>
+    rw [he] at h
+    simp only at h
+    split at h
+    · cases h
+    · exact h
+
+theorem beginOpen_some {A : Arch} {i : Nat} {v : UInt64} (h : Handle) (md : Mode)
+    (hv : A.g i md = some v) :
+    (beginOpen A h i md).pc = .storing i md v ∧ (beginOpen A h i md).script = h.script ∧
+      (beginOpen A h i md).obs = h.obs := by
+  unfold Arch.g Arch.f at hv
   unfold beginOpen
   cases he : A.entries[i]? with
   | none => rw [he] at hv; cases hv
   | some e =>
     rw [he] at hv
     simp only at hv ⊢
-    cases hf : findContent A.bytes e.headerStart with
-    | ok w => rw [hf] at hv; cases hv; simp
-    | err er => rw [hf] at hv; cases hv
-    | panic => rw [hf] at hv; cases hv
+    by_cases hpr : needsPw md e = true
+    · rw [if_pos hpr] at hv; cases hv
+    · rw [if_neg hpr] at hv ⊢
+      cases hf : findContent A.bytes e.headerStart with
+      | ok w => rw [hf] at hv; cases hv; simp
+      | err er => rw [hf] at hv; cases hv
+      | panic => rw [hf] at hv; cases hv
 
-theorem beginOpen_none {A : Arch} {i : Nat} (h : Handle) (raw : Bool) (hv : A.f i = none) :
-    (beginOpen A h i raw).pc = h.pc ∧ (beginOpen A h i raw).script = h.script ∧
-      (beginOpen A h i raw).obs.length = h.obs.length + 1 := by
-  unfold Arch.f at hv
+theorem beginOpen_none {A : Arch} {i : Nat} (h : Handle) (md : Mode) (hv : A.g i md = none) :
+    (beginOpen A h i md).pc = h.pc ∧ (beginOpen A h i md).script = h.script ∧
+      (beginOpen A h i md).obs.length = h.obs.length + 1 := by
+  unfold Arch.g Arch.f at hv
   unfold beginOpen
   cases he : A.entries[i]? with
   | none => simp [Handle.emit]
   | some e =>
     rw [he] at hv
     simp only at hv ⊢
-    cases hf : findContent A.bytes e.headerStart with
-    | ok w => rw [hf] at hv; cases hv
-    | err er => simp [Handle.emit]
-    | panic => simp [Handle.emit]
+    by_cases hpr : needsPw md e = true
+    · rw [if_pos hpr]; simp [Handle.emit]
+    · rw [if_neg hpr] at hv ⊢
+      cases hf : findContent A.bytes e.headerStart with
+      | ok w => rw [hf] at hv; cases hv
+      | err er => simp [Handle.emit]
+      | panic => simp [Handle.emit]
 
-theorem finishOpen_done (A : Arch) (h : Handle) (i : Nat) (raw : Bool) (v : UInt64) :
-    (finishOpen A h i raw v).pc = .idle ∧ (finishOpen A h i raw v).script = h.script ∧
-      (finishOpen A h i raw v).obs.length = h.obs.length + 1 := by
+theorem finishOpen_done (A : Arch) (h : Handle) (i : Nat) (md : Mode) (v : UInt64) :
+    (finishOpen A h i md v).pc = .idle ∧ (finishOpen A h i md v).script = h.script ∧
+      (finishOpen A h i md v).obs.length = h.obs.length + 1 := by
   unfold finishOpen
   split
   · simp [Handle.emit]
-  · split <;> simp [Handle.emit]
+  · split
+    · simp [Handle.emit]
+    · split <;> simp [Handle.emit]
+    · split
+      · simp [Handle.emit]
+      · split
+        · simp [Handle.emit]
+        · split <;> simp [Handle.emit]
 
 theorem doRead_done (A : Arch) (h : Handle) (n : Nat) :
     (doRead A h n).script = h.script ∧ (doRead A h n).obs.length = h.obs.length + 1 := by
   unfold doRead
   split
   · simp [Handle.emit]
-  · split
-    · simp [Handle.emit]
-    · split <;> simp [Handle.emit]
+  · split <;> simp [Handle.emit]
+
+theorem doOp_target {A : Arch} {op : Op} {i : Nat} {md : Mode} (c : List UInt64) (h : Handle)
+    (ht : op.target A = some (i, md)) : doOp A c h op = beginOpen A h i md := by
+  cases op <;> simp only [Op.target, Option.some.injEq, Prod.mk.injEq, reduceCtorEq] at ht <;>
+    (obtain ⟨rfl, rfl⟩ := ht; rfl)
+
+theorem opSteps_target {A : Arch} {op : Op} {i : Nat} {md : Mode}
+    (ht : op.target A = some (i, md)) : opSteps A op = if (A.g i md).isSome then 3 else 1 := by
+  cases op <;> simp only [Op.target, Option.some.injEq, Prod.mk.injEq, reduceCtorEq] at ht <;>
+    (obtain ⟨rfl, rfl⟩ := ht; rfl)
+
+theorem opSteps_nontarget {A : Arch} {op : Op} (ht : op.target A = none) : opSteps A op = 1 := by
+  cases op <;> simp only [Op.target, reduceCtorEq] at ht <;> rfl
 
 /-- One whole call, run alone from an idle handle, takes exactly `opSteps` atomic steps, consumes the
 call from the script and yields exactly one observation. -/
@@ -424,39 +476,39 @@ theorem call_steps (A : Arch) (c : List UInt64) (H : Handle) (op : Op) (rest : L
     (soloRun A c H (opSteps A op)).2.obs.length = H.obs.length + 1 := by
   have step1 : stepH A c H = (c, doOp A c { H with script := rest } op) := by
     unfold stepH; rw [hpc]; simp only; rw [hs]
-  have open3 : ∀ i raw, (op = .openIdx i ∧ raw = false ∨ op = .openRaw i ∧ raw = true) →
-      ∀ v, A.f i = some v →
+  have open3 : ∀ i md, op.target A = some (i, md) →
+      ∀ v, A.g i md = some v →
       (soloRun A c H 3).2.pc = .idle ∧ (soloRun A c H 3).2.script = rest ∧
       (soloRun A c H 3).2.obs.length = H.obs.length + 1 := by
-    intro i raw hop v hv
-    have hd : doOp A c { H with script := rest } op = beginOpen A { H with script := rest } i raw := by
-      rcases hop with ⟨rfl, rfl⟩ | ⟨rfl, rfl⟩ <;> rfl
-    obtain ⟨b1, b2, b3⟩ := beginOpen_some { H with script := rest } raw hv
-    have e1 : soloRun A c H 1 = (c, beginOpen A { H with script := rest } i raw) := by
+    intro i md hop v hv
+    have hd : doOp A c { H with script := rest } op = beginOpen A { H with script := rest } i md :=
+      doOp_target c _ hop
+    obtain ⟨b1, b2, b3⟩ := beginOpen_some { H with script := rest } md hv
+    have e1 : soloRun A c H 1 = (c, beginOpen A { H with script := rest } i md) := by
       show stepH A c H = _; rw [step1, hd]
     have e2 : soloRun A c H 2 =
-        (c.set i v, { beginOpen A { H with script := rest } i raw with pc := .seeking i raw v }) := by
+        (c.set i v, { beginOpen A { H with script := rest } i md with pc := .seeking i md v }) := by
       show stepH A (soloRun A c H 1).1 (soloRun A c H 1).2 = _
       rw [e1]; unfold stepH; simp only [b1]
     have e3 : (soloRun A c H 3).2 = finishOpen A
-        { beginOpen A { H with script := rest } i raw with pc := .seeking i raw v } i raw v := by
+        { beginOpen A { H with script := rest } i md with pc := .seeking i md v } i md v := by
       show (stepH A (soloRun A c H 2).1 (soloRun A c H 2).2).2 = _
       rw [e2]; unfold stepH; simp only
     rw [e3]
     obtain ⟨f1, f2, f3⟩ := finishOpen_done A
-      { beginOpen A { H with script := rest } i raw with pc := .seeking i raw v } i raw v
+      { beginOpen A { H with script := rest } i md with pc := .seeking i md v } i md v
     refine ⟨f1, ?_, ?_⟩
     · rw [f2]; exact b2
     · rw [f3]; simp only [b3]
-  have open1 : ∀ i raw, (op = .openIdx i ∧ raw = false ∨ op = .openRaw i ∧ raw = true) →
-      A.f i = none →
+  have open1 : ∀ i md, op.target A = some (i, md) →
+      A.g i md = none →
       (soloRun A c H 1).2.pc = .idle ∧ (soloRun A c H 1).2.script = rest ∧
       (soloRun A c H 1).2.obs.length = H.obs.length + 1 := by
-    intro i raw hop hv
-    have hd : doOp A c { H with script := rest } op = beginOpen A { H with script := rest } i raw := by
-      rcases hop with ⟨rfl, rfl⟩ | ⟨rfl, rfl⟩ <;> rfl
-    obtain ⟨b1, b2, b3⟩ := beginOpen_none { H with script := rest } raw hv
-    have e1 : soloRun A c H 1 = (c, beginOpen A { H with script := rest } i raw) := by
+    intro i md hop hv
+    have hd : doOp A c { H with script := rest } op = beginOpen A { H with script := rest } i md :=
+      doOp_target c _ hop
+    obtain ⟨b1, b2, b3⟩ := beginOpen_none { H with script := rest } md hv
+    have e1 : soloRun A c H 1 = (c, beginOpen A { H with script := rest } i md) := by
       show stepH A c H = _; rw [step1, hd]
     rw [e1]
     exact ⟨by rw [b1]; exact hpc, b2, b3⟩
@@ -467,26 +519,50 @@ theorem call_steps (A : Arch) (c : List UInt64) (H : Handle) (op : Op) (rest : L
     intro G hG g1 g2 g3
     have e1 : soloRun A c H 1 = (c, G) := by show stepH A c H = _; rw [step1, hG]
     rw [e1]; exact ⟨by rw [g1]; exact hpc, g2, g3⟩
-  cases op with
-  | openIdx i =>
-    cases hv : A.f i with
-    | none => simp only [opSteps, hv]; exact open1 i false (Or.inl ⟨rfl, rfl⟩) hv
-    | some v => simp only [opSteps, hv]; exact open3 i false (Or.inl ⟨rfl, rfl⟩) v hv
-  | openRaw i =>
-    cases hv : A.f i with
-    | none => simp only [opSteps, hv]; exact open1 i true (Or.inr ⟨rfl, rfl⟩) hv
-    | some v => simp only [opSteps, hv]; exact open3 i true (Or.inr ⟨rfl, rfl⟩) v hv
-  | read n =>
-    obtain ⟨d1, d2⟩ := doRead_done A { H with script := rest } n
-    exact simple _ rfl (doRead_pc A _ n) d1 d2
-  | dataStart =>
-    refine simple _ rfl ?_ ?_ ?_ <;> simp only [doOp] <;> split <;> (try split) <;> simp [Handle.emit]
-  | info =>
-    refine simple _ rfl ?_ ?_ ?_ <;> simp only [doOp] <;> split <;> (try split) <;> simp [Handle.emit]
-  | close =>
-    refine simple _ rfl ?_ ?_ ?_ <;> simp only [doOp] <;> split <;> simp [Handle.emit]
-  | len =>
-    refine simple _ rfl ?_ ?_ ?_ <;> simp only [doOp] <;> split <;> simp [Handle.emit]
+  cases ht : op.target A with
+  | some t =>
+    obtain ⟨i, md⟩ := t
+    rw [opSteps_target ht]
+    cases hv : A.g i md with
+    | none => simp only [Option.isSome_none]; exact open1 i md ht hv
+    | some v => simp only [Option.isSome_some, if_true]; exact open3 i md ht v hv
+  | none =>
+    rw [opSteps_nontarget ht]
+    cases op with
+    | openIdx i => simp [Op.target] at ht
+    | openRaw i => simp [Op.target] at ht
+    | openDec i p => simp [Op.target] at ht
+    | openName nm => simp [Op.target] at ht
+    | openNameDec nm p => simp [Op.target] at ht
+    | read n =>
+      obtain ⟨d1, d2⟩ := doRead_done A { H with script := rest } n
+      exact simple _ rfl (doRead_pc A _ n) d1 d2
+    | dataStart =>
+      refine simple _ rfl ?_ ?_ ?_ <;> simp only [doOp] <;> split <;> (try split) <;> simp [Handle.emit]
+    | info =>
+      refine simple _ rfl ?_ ?_ ?_ <;> simp only [doOp] <;> split <;> (try split) <;> simp [Handle.emit]
+    | close =>
+      refine simple _ rfl ?_ ?_ ?_ <;> simp only [doOp] <;> split <;> simp [Handle.emit]
+    | len =>
+      refine simple _ rfl ?_ ?_ ?_ <;> simp only [doOp] <;> split <;> simp [Handle.emit]
+
+/-- A successful-so-far open run alone: three steps = header parse, store, `finishOpen`. -/
+theorem solo_open3 (A : Arch) (c : List UInt64) (H : Handle) (op : Op) (rest : List Op)
+    (hpc : H.pc = .idle) (hs : H.script = op :: rest) (i : Nat) (md : Mode)
+    (ht : op.target A = some (i, md)) (v : UInt64) (hv : A.g i md = some v) :
+    soloRun A c H 3 = (c.set i v, finishOpen A
+        { beginOpen A { H with script := rest } i md with pc := .seeking i md v } i md v) := by
+  have step1 : stepH A c H = (c, doOp A c { H with script := rest } op) := by
+    unfold stepH; rw [hpc]; simp only; rw [hs]
+  obtain ⟨b1, _, _⟩ := beginOpen_some { H with script := rest } md hv
+  have e1 : soloRun A c H 1 = (c, beginOpen A { H with script := rest } i md) := by
+    show stepH A c H = _; rw [step1, doOp_target c _ ht]
+  have e2 : soloRun A c H 2 =
+      (c.set i v, { beginOpen A { H with script := rest } i md with pc := .seeking i md v }) := by
+    show stepH A (soloRun A c H 1).1 (soloRun A c H 1).2 = _
+    rw [e1]; unfold stepH; simp only [b1]
+  show stepH A (soloRun A c H 2).1 (soloRun A c H 2).2 = _
+  rw [e2]; unfold stepH; simp only
 
 theorem solo_finished (A : Arch) (script : List Op) :
     ∀ (c : List UInt64) (H : Handle), H.pc = .idle → H.script = script →
@@ -532,26 +608,18 @@ theorem first_step_not_idle (A : Arch) (c : List UInt64) (H : Handle) (op : Op) 
   have step1 : stepH A c H = (c, doOp A c { H with script := rest } op) := by
     unfold stepH; rw [hpc]; simp only; rw [hs]
   rw [step1]
-  cases op with
-  | openIdx i =>
-    cases hv : A.f i with
-    | none => simp [opSteps, hv] at h3
+  cases ht : op.target A with
+  | none => exact absurd (opSteps_nontarget ht) h3
+  | some t =>
+    obtain ⟨i, md⟩ := t
+    rw [opSteps_target ht] at h3
+    cases hv : A.g i md with
+    | none => simp [hv] at h3
     | some v =>
-      obtain ⟨b1, _, _⟩ := beginOpen_some { H with script := rest } false hv
-      show (beginOpen A _ i false).pc ≠ _
+      obtain ⟨b1, _, _⟩ := beginOpen_some { H with script := rest } md hv
+      rw [doOp_target c _ ht]
+      show (beginOpen A _ i md).pc ≠ _
       rw [b1]; intro h; cases h
-  | openRaw i =>
-    cases hv : A.f i with
-    | none => simp [opSteps, hv] at h3
-    | some v =>
-      obtain ⟨b1, _, _⟩ := beginOpen_some { H with script := rest } true hv
-      show (beginOpen A _ i true).pc ≠ _
-      rw [b1]; intro h; cases h
-  | read n => simp [opSteps] at h3
-  | dataStart => simp [opSteps] at h3
-  | info => simp [opSteps] at h3
-  | close => simp [opSteps] at h3
-  | len => simp [opSteps] at h3
 
 theorem opSteps_cases (A : Arch) (op : Op) : opSteps A op = 1 ∨ opSteps A op = 3 := by
   cases op <;> simp [opSteps] <;> exact Classical.em _
